@@ -197,6 +197,10 @@ type runCfg struct {
 	known bool
 }
 
+// allowKnown: oracle-side exemptions for known defects that cannot be avoided by the generator are lifted
+// (set by -known and in witness mode).
+var allowKnown bool
+
 var curStart [64]int64 // per worker: unix nano of the running evaluation (0 = idle)
 var curCase [64]atomic.Value
 
@@ -370,6 +374,7 @@ func main() {
 	res := &vh.Result{Engine: "htmloracle", Seed: *seed, Tier: *tier,
 		Rule: "Evaluations = (document, options, registry) triples for which the oracle reached a verdict; DistinctNontrivial = distinct generated inputs (SHA-1) with at least one judged triple whose output differs from the input. Malformed-stream inputs are judged for panic / error / second pass only."}
 
+	allowKnown = *known || *witness != ""
 	if *witness != "" {
 		b, err := os.ReadFile(*witness)
 		if err != nil {
